@@ -26,10 +26,17 @@ SatMism(e) ==
   \cup (IF e.u32_full # cf THEN {"sat.u32_register_carry"} ELSE {}) \cup (IF e.u64_full # cf THEN {"sat.u64_register_carry"} ELSE {})
 
 CksMism(e) ==
-  LET x == Expected(e.what, e.src, e.dst, e.hdr, e.cksoff, e.payload) IN
+  LET x == Expected(e.what, e.src, e.dst, e.hdr, e.cksoff, e.payload)
+      n == Len(e.hdr) + Len(e.payload)
+      \* beyond 2^16 - 1 bytes: the 16 bit length of the IPv4 pseudo header / of the UDP length field cannot hold the length -> error (-1);
+      \* over IPv6 (32 bit pseudo header length, RFC 8200 8.1 / RFC 2675) the checksum over the REAL length, or a refusal
+      Adm(api) == IF n <= 65535 THEN {x}
+                  ELSE IF e.what \in {"udp4", "tcp4"} \/ api = "UdpHeader::with_ipv6_checksum" THEN {-1}
+                  ELSE {x, -1}
+  IN
   UNION {LET r == e.results[i] IN
          IF r.got = -2 THEN {} ELSE IF r.got = -3 THEN {"cks.without_checksum_not_zero"}
-         ELSE IF r.got # x THEN {"cks." \o e.what \o ":" \o r.api} ELSE {} : i \in 1..Len(e.results)}
+         ELSE IF r.got \notin Adm(r.api) THEN {"cks." \o e.what \o ":" \o r.api} ELSE {} : i \in 1..Len(e.results)}
   \cup (IF e.valid # -1 /\ (e.valid = 1) # ValidSum(Pseudo6(e.src, e.dst, 58, Len4(Len(e.rx))), e.rx, <<>>) THEN {"cks.validation"} ELSE {})
   \cup (IF e.what \in {"udp4", "udp6"} /\ x = 0 THEN {"SPEC.udp_zero"} ELSE {})
 
